@@ -117,7 +117,7 @@ func textOrByteStringDeterministic(input []byte) (int, error) {
 		return 0, err
 	}
 
-	if (uintLen + int(stringLen)) >= len(input) {
+	if stringLen >= uint64(len(input)) || (uintLen+int(stringLen)) >= len(input) {
 		panic("Text or byte string's length cannot exceed the length of the input byte array.")
 	}
 
@@ -129,6 +129,12 @@ func arrayDeterministic(input []byte) (int, error) {
 	lenOfNumOfItems, numOfItems, err := unsignedIntegerDeterministic(input)
 	if err != nil {
 		return 0, err
+	}
+
+	// Every item takes at least one byte, so a count above the input length cannot be
+	// satisfied. Checking it in uint64 also keeps the conversion to int below from wrapping.
+	if numOfItems > uint64(len(input)) {
+		return 0, errors.New("CBOR array claims more items than the input can contain.")
 	}
 
 	// Skip the starter byte and the bytes stating the amount of elements the array has.
@@ -159,6 +165,12 @@ func mapDeterministic(input []byte) (int, error) {
 	lenOfNumOfItemPairs, numOfItemPairs, err := unsignedIntegerDeterministic(input[0:])
 	if err != nil {
 		return 0, err
+	}
+
+	// Every item takes at least one byte, so a count above the input length cannot be
+	// satisfied. Checking it in uint64 also keeps the conversion to int below from wrapping.
+	if numOfItemPairs > uint64(len(input)) {
+		return 0, errors.New("CBOR map claims more items than the input can contain.")
 	}
 
 	// Skip the starter byte and the bytes stating the amount of element pairs the map has.
